@@ -218,7 +218,7 @@ pub fn worker_main(args: &[String]) -> i32 {
     let dir = args[6].clone();
     let digests = args.iter().any(|a| a == "--digests");
     // how many process-level cases this worker offers to the driver
-    let proc_quota: usize = if thorough { 64 } else { 12 };
+    let proc_quota: usize = if thorough { 64 } else { 16 };
     if let Err(e) = enter_sandbox(&dir) {
         let _ = std::fs::write(format!("{dir}/err.txt"), e);
         return 2;
@@ -494,7 +494,7 @@ pub fn run(prop: &str, tier: &str, extra: &[String]) -> i32 {
     // process-level cross-check against the shipped binary (auxiliary, sampled, fault-free traces only)
     let mut proc_cases: Vec<crate::proc_check::ProcCase> = res.outs.iter().flat_map(|o| o.proc_cases.iter().cloned()).collect();
     proc_cases.sort_by_key(|c| c.run_index());
-    let proc_limit = if tier == "quick" { 40 } else { 500 };
+    let proc_limit = if tier == "quick" { if prop == "C13" { 150 } else { 40 } } else { 500 };
     proc_cases.truncate(proc_limit);
     let mut proc_run = 0;
     let mut proc_note = String::from("not applicable to this campaign");
@@ -503,7 +503,7 @@ pub fn run(prop: &str, tier: &str, extra: &[String]) -> i32 {
             Some(bin) => {
                 let (n, mismatches) = crate::proc_check::run_cases(prop, &bin, &proc_cases);
                 proc_run = n;
-                proc_note = format!("{n} fault-free executions replayed against {} (built from the current tree without the verif feature)", bin.display());
+                proc_note = format!("{n} fault-free (and, for the command line, static-fault) executions replayed against {} (built from the current tree without the verif feature)", bin.display());
                 for (v, case) in mismatches {
                     let run_index = case.run_index();
                     found.entry(v.signature.clone()).or_insert(ReplayFile {
